@@ -315,6 +315,25 @@ impl Check for C19 {
     }
     fn generate(&self, seed: u64, index: u64) -> J {
         let mut rng = Rng::new(run_seed(seed, ID, index));
+        if index % 1000 == 77 {
+            // A long session in which more distinct label names pass through one process than a
+            // 16-bit counter can tell apart: 23 versions with 3000 fresh names each, then one
+            // that brings names of the first and of the latest versions together
+            let version = |vs: &[usize]| -> String {
+                let mut text = String::from("    halt\n");
+                for v in vs {
+                    for i in 0..3000 {
+                        text.push_str(&format!("Lf_{}_{} .fill x{:04X}\n", v, i, i));
+                    }
+                }
+                text
+            };
+            let mut events: Vec<J> = (0..23).map(|v| J::obj().set("kind", "many_distinct_labels").set("text", version(&[v]))).collect();
+            let mut last = version(&[0, 21, 22]);
+            last.insert_str(0, "    ld r0, Lf_0_5\n    ld r1, Lf_22_2999\n");
+            events.push(J::obj().set("kind", "early_and_late_labels_together").set("text", last));
+            return J::obj().set("stack", false).set("prelude", J::Null).set("real_watch", false).set("save_styles", "0").set("events", J::Arr(events));
+        }
         let (stack, events) = gen_history(&mut rng);
         // One scenario in four starts with something assembled earlier in the same process under
         // the other feature setting (possible for library users; each setting on its own thread)
